@@ -49,6 +49,10 @@ class Builder:
     def decorate(self, f, spec):
         from connectome import impure, optional, meta, inverse
         from connectome.interface.complex_edges import hash_by_value
+        if spec.get('kwbind'):
+            # explicit factory with keyword bindings: Function(f, 'a', name='b')
+            from connectome.interface.edges import Function
+            f = Function(f, *spec.get('posbind', []), **spec['kwbind'])
         if spec.get('byvalue') and not spec.get('byvalue_outer'):
             f = hash_by_value(f)
         if spec.get('impure'):
